@@ -8,6 +8,8 @@ a chosen pair of objects (all other objects keep creation ranks); the explorer e
 distinguish; the emitted bytes must be identical on every path. The reason it should hold — injective sort keys — is
 attacked directly by searching key collisions among short names, and collisions become designs."""
 import io
+import json
+import os
 import itertools
 import contextlib
 import z3
@@ -492,6 +494,26 @@ def run_determinism(case, ob, site):
                 ob.fact('emitter-accepts-design', False, site + ':raises', detail=repr(p.exc))
             else:
                 texts.add(p.result)
+    # the interpreter's string-hash seed is part of the environment as well: hash() as seen by PyRTL's modules is replaced by a
+    # salted one (two salts besides the process's own) and the text must not move
+    import builtins
+    import importlib
+    hmods = [importlib.import_module('pyrtl.' + m) for m in EMIT_MODULES + ['core', 'wire', 'helperfuncs', 'memory']]
+    for salt in (0x5bd1e995, 0x9e3779b97f4a7c15):
+        def salted(o, salt=salt):
+            h = builtins.hash(o)
+            return (h ^ salt) if isinstance(o, str) else h
+        for m in hmods:
+            m.__dict__['hash'] = salted
+        try:
+            b, tr = fresh() if kind == 'firrtl' else (block, trace)
+            texts.add(emit(kind, b, tr))
+            npaths += 1
+        except Exception as e:
+            ob.fact('emitter-accepts-design', False, site + ':raises', detail=repr(e))
+        finally:
+            for m in hmods:
+                m.__dict__.pop('hash', None)
     ob.paths += npaths
     ob.n += 1
     if len(texts) <= 1:
@@ -918,6 +940,66 @@ def run_rebuild(case, ob, site):
         ob.fact('same-%s-text-when-built-again-later' % n_, x == y, site + ':' + n_)
 
 
+BACKEND_NAMES = ['table', 'time', 'output', 'block', 'd', 'regs', 'int', 'lambda', 'a$b', 'mems', 'outs', 'reg', 'if']
+
+
+def _backend_design():
+    pyrtl.reset_working_block()
+    acc = None
+    for i, n in enumerate(BACKEND_NAMES):
+        w = pyrtl.WireVector(2, n)          # internal wires: locals of FastSimulation's generated code, wires of the Verilog module
+        w <<= pyrtl.Input(2, 'i%d' % i) ^ (acc if acc is not None else 0)
+        acc = w
+    r = pyrtl.Register(2, 'wire')
+    r.next <<= acc
+    o = pyrtl.Output(2, 'o')
+    o <<= r + acc
+    return pyrtl.working_block()
+
+
+def _backend_fast(b):
+    sim = pyrtl.FastSimulation(block=b, tracer=pyrtl.SimulationTrace(
+        wires_to_track=sorted(b.wirevector_subset((pyrtl.Input, pyrtl.Output, pyrtl.Register)), key=lambda w: w.name), block=b))
+    for t in range(2):
+        sim.step({w.name: (t + 1 + i) & w.bitmask for i, w in enumerate(sorted(b.wirevector_subset(pyrtl.Input), key=lambda w: w.name))})
+    return sorted((getattr(k, 'name', k), list(v)) for k, v in sim.tracer.trace.items())
+
+
+def _backend_steps(order):
+    got = []
+    for step in order:
+        b = _backend_design()
+        got.append((step, list(all_texts(b)) if step == 'export' else _backend_fast(b)))
+    return got
+
+
+def run_backend_history(case, ob, site):
+    """the text of an export does not depend on which other back ends (FastSimulation's Python-identifier rules, the Verilog and
+    VCD rules) handled the same names earlier in the process; and each back end still works after the others. Two histories in
+    this process, and the opposite one in a fresh interpreter."""
+    import subprocess
+    import sys
+    from ..core import REPO
+    runs = []
+    for order in (('export', 'fast', 'export'), ('fast', 'export', 'fast')):
+        try:
+            runs += _backend_steps(order)
+        except Exception as e:
+            return ob.fact('back-ends-work-in-the-order-%s' % '-'.join(order), False, site + ':raises', detail=repr(e))
+    code = 'import json, sys\nfrom vf.props import c20\nprint("RESULT" + json.dumps(c20._backend_steps(("fast", "export"))))'
+    env = dict(os.environ, PYTHONPATH=REPO + os.pathsep + os.path.dirname(os.path.dirname(os.path.dirname(os.path.abspath(__file__)))))
+    pr = subprocess.run([sys.executable, '-c', code], env=env, capture_output=True, text=True, timeout=600)
+    line = [ln for ln in pr.stdout.split('\n') if ln.startswith('RESULT')]
+    if not ob.fact('back-ends-work-in-the-order-fast-export-in-a-fresh-interpreter', bool(line), site + ':raises', detail=pr.stderr[-400:]):
+        return
+    runs += [(st, [list(x) if isinstance(x, list) else x for x in r]) for st, r in json.loads(line[0][6:])]
+    exports = [r for st, r in runs if st == 'export']
+    fasts = [json.loads(json.dumps(r)) for st, r in runs if st == 'fast']
+    for n_, col in zip(EMITTERS, zip(*exports)):
+        ob.fact('same-%s-text-whichever-back-end-ran-first' % n_, len(set(col)) == 1, site + ':' + n_)
+    ob.fact('same-FastSimulation-trace-whichever-back-end-ran-first', all(f == fasts[0] for f in fasts), site + ':fast')
+
+
 def run_build_determinism(case, ob, site):
     # number of wires the build creates (deterministic): one plain build
     with build_order_env() as counter:
@@ -965,6 +1047,26 @@ def run_build_determinism(case, ob, site):
         else:
             texts.setdefault(p.result, ('strings', 'reversed'))
     BRanked.sym_rank, BRanked.memo = {}, {}
+    # the interpreter's string-hash seed is part of the environment as well: hash() as seen by PyRTL's modules is replaced by a
+    # salted one (two salts besides the process's own) and the text must not move
+    import builtins
+    import importlib
+    hmods = [importlib.import_module('pyrtl.' + m) for m in EMIT_MODULES + ['core', 'wire', 'helperfuncs', 'memory']]
+    for salt in (0x5bd1e995, 0x9e3779b97f4a7c15):
+        def salted(o, salt=salt):
+            h = builtins.hash(o)
+            return (h ^ salt) if isinstance(o, str) else h
+        for m in hmods:
+            m.__dict__['hash'] = salted
+        try:
+            b, tr = fresh() if kind == 'firrtl' else (block, trace)
+            texts.add(emit(kind, b, tr))
+            npaths += 1
+        except Exception as e:
+            ob.fact('emitter-accepts-design', False, site + ':raises', detail=repr(e))
+        finally:
+            for m in hmods:
+                m.__dict__.pop('hash', None)
     ob.paths += npaths
     ob.n += 1
     if len(texts) <= 1:
@@ -1089,7 +1191,7 @@ def run_keys(case, ob, site):
 
 
 def cases(tier, seed):
-    out = [{'k': 'keys'}, {'k': 'rebuild'}]
+    out = [{'k': 'keys'}, {'k': 'rebuild'}, {'k': 'backend_history'}]
     dets = [{'fam': 'DET', 'kind': 'small'}, {'fam': 'DET', 'kind': 'bad_names'}, {'fam': 'DET', 'kind': 'tie_names', 'names': ['a1', 'a01']},
             {'fam': 'DET', 'kind': 'mem'}, {'fam': 'DET', 'kind': 'case_names'}, {'fam': 'DET', 'kind': 'mem3'},
             {'fam': 'DET', 'kind': 'mem_shared_we'}, {'fam': 'DET', 'kind': 'two_roms'}]
@@ -1133,6 +1235,8 @@ def site_of(c):
         return 'C20:build-determinism:%s%s' % (c['kind'], ':then-' + c['then'] if c.get('then') else '')
     if c['k'] == 'pass_order':
         return 'C20:pass-order:%s:%s' % (c['pas'], c['kind'])
+    if c['k'] == 'backend_history':
+        return 'C20:back-ends-one-after-the-other'
     if c['k'] == 'rebuild':
         return 'C20:rebuild-later-in-the-process'
     return 'C20:readonly:%s' % c['call']
@@ -1140,7 +1244,7 @@ def site_of(c):
 
 def run_case(case, ob, tier):
     {'keys': run_keys, 'determinism': run_determinism, 'readonly': run_readonly, 'build': run_build_determinism,
-     'pass_order': run_pass_order, 'rebuild': run_rebuild}[case['k']](case, ob, site_of(case))
+     'pass_order': run_pass_order, 'rebuild': run_rebuild, 'backend_history': run_backend_history}[case['k']](case, ob, site_of(case))
 
 
 def replay(cex):
